@@ -3,7 +3,7 @@ SPECIFICATION SpecM
 VIEW View
 CHECK_DEADLOCK FALSE
 CONSTANTS TFs = {3,15} TradeTF = 3 Warm = 15 N = 20 MaxFills = 2 Fast = TRUE
-QStale = FALSE QEmptyRead = FALSE QPartialChunk = FALSE QChunkTrading = FALSE Export = FALSE
+QStale = FALSE QEmptyRead = FALSE QPartialChunk = FALSE QChunkTrading = FALSE EpochOffset = 0 QEpochGrid = TRUE Export = FALSE
 INVARIANT NoReadError
 INVARIANT RowsAreAggregations
 INVARIANT CurrentIsAggregation
